@@ -6,7 +6,7 @@
    two runs of the REAL database (coq/Corr/C04.v spec_ok), `known_class_of` the recorded finding
    classes (coq/Corr/C04.v known_class). *)
 From Coq Require Import ZArith List Bool.
-From TV Require Import Model.Persist Proof.Persist Proof.PersistSim Proof.PersistWit.
+From TV Require Import Model.Persist Proof.Persist Proof.PersistSim Proof.PersistWit Proof.PersistState.
 Import ListNotations.
 Open Scope Z_scope.
 
@@ -27,6 +27,15 @@ Theorem checkpoint_api_id :
   forall wal h, in_lang h = true -> forallb only_api h = true ->
     oracle h (run true (init wal) h) (run false (init wal) h) = true.
 Proof. exact checkpoint_api_id_l. Qed.
+
+(* the persistent state itself (what no query shows directly): outside the classes an interruption
+   at the end of any history leaves every table as it was - leaf rows with their row ids, header
+   row_count, header AUTO_INCREMENT counter, PRIMARY KEY index (`exec true` = the state reached) *)
+Theorem interruption_preserves_tables :
+  forall wal h o, is_int o = true -> in_lang (h ++ [o]) = true ->
+    known_class_of wal (h ++ [o]) (run true (init wal) (h ++ [o])) = 0 ->
+    forall t, s_tab (exec true (init wal) (h ++ [o])) t = s_tab (exec true (init wal) h) t.
+Proof. exact interruption_preserves_tables_l. Qed.
 
 (* the faithful model does NOT satisfy the property inside class 1: insert, close + open,
    insert - the second INSERT fails (next_row_id restarts at 1) where the uninterrupted run inserts *)
@@ -65,6 +74,10 @@ Check persist_observational_id :
 Check checkpoint_api_id :
   forall wal h, in_lang h = true -> forallb only_api h = true ->
     oracle h (run true (init wal) h) (run false (init wal) h) = true.
+Check interruption_preserves_tables :
+  forall wal h o, is_int o = true -> in_lang (h ++ [o]) = true ->
+    known_class_of wal (h ++ [o]) (run true (init wal) (h ++ [o])) = 0 ->
+    forall t, s_tab (exec true (init wal) (h ++ [o])) t = s_tab (exec true (init wal) h) t.
 Check reopen_refuted :
   in_lang wit1 = true /\ known_class_of false wit1 (run true (init false) wit1) = 1
   /\ oracle wit1 (run true (init false) wit1) (run false (init false) wit1) = false
@@ -80,5 +93,6 @@ Check checkpoint_refuted :
 
 Print Assumptions persist_observational_id.
 Print Assumptions checkpoint_api_id.
+Print Assumptions interruption_preserves_tables.
 Print Assumptions reopen_refuted.
 Print Assumptions checkpoint_refuted.
